@@ -30,6 +30,13 @@ func (r *ParserRule) RunPass(ctx *Context, pass Pass) {
 				"rule name cannot contain consecutive underscores: %v", r.Name)
 			return
 		}
+		if reservedTokenNames[r.Name] {
+			// Helper rules are named after their terms, and @error is named ERROR.
+			ctx.Errs.Errorf(
+				ctx.Position(r),
+				"sorry, %q is a reserved name", r.Name)
+			return
+		}
 		if !ctx.RegisterName(r.Name, r) {
 			return
 		}
